@@ -6,7 +6,7 @@
    simulation.  Equality of the implementation's trace with this one function in every
    environment IS environment independence; that equality is what the check runs. *)
 From Coq Require Import List ZArith Lia Bool.
-From Sim Require Import Map Variant Current Kernel Queue Net Pcap SimState Sim PcapProofs.
+From Sim Require Import Map Variant Current Kernel Queue Net Pcap SimState Sim Script PcapProofs.
 Import ListNotations.
 Local Open Scope Z_scope.
 
